@@ -109,7 +109,10 @@ class SGen:
         rng = self.rng
         if rng.random() < p:
             s["description"] = rng.choice(["desc", "a \"quoted\" text", "multi\nline"])
-        if rng.random() < p / 2:
+        ty = s.get("type")
+        is_obj = ty == "object" or (isinstance(ty, list) and "object" in ty) or "properties" in s
+        if rng.random() < p / 2 and not is_obj:
+            # (an inline model reached twice under a type list would collide with itself by title: class-name collisions are not C17's subject)
             s["title"] = self.title()
         if rng.random() < p / 3:
             s["example"] = "ex"
